@@ -355,7 +355,13 @@ def selections(ctx: Ctx, td: Path, env, log: Path) -> None:
              (["--enable", "PLG102"], {"PLG100", "PLG101", "PLG102", "SOL100"}), (["--disable-all", "--enable", "SOL100"], {"SOL100"}),
              (["--enable", "PLG103"], {"PLG100", "PLG101", "PLG103", "SOL100"}), (["--disable", "PLG100", "--disable", "PLG101"], {"SOL100"}),
              (["--disable", "#plugcat"], set()), (["--disable", "#plugcat", "--enable", "PLG101"], {"PLG101"}), (["--enable-all"], {"PLG100", "PLG101", "PLG102", "PLG103", "SOL100"}),
-             (["--disable-all"], set()), (["--ignore", "#plugcat"], set()), (["--verbose"], {"PLG100", "PLG101", "SOL100"})]
+             (["--disable-all"], set()), (["--ignore", "#plugcat"], set()), (["--verbose"], {"PLG100", "PLG101", "SOL100"}),
+             # checks that are off by default (PLG102, PLG103) under the all-switches combined with their category / code
+             (["--enable-all", "--disable", "#plugcat"], set()), (["--enable-all", "--disable", "PLG102"], {"PLG100", "PLG101", "PLG103", "SOL100"}),
+             (["--enable-all", "--ignore", "#plugcat"], set()), (["--enable", "#plugcat"], {"PLG100", "PLG101", "PLG102", "PLG103", "SOL100"}),
+             (["--disable-all", "--enable", "#plugcat"], {"PLG100", "PLG101", "PLG102", "PLG103", "SOL100"}),
+             (["--enable-all", "--disable", "#plugcat", "--enable", "PLG103"], {"PLG103"}), (["--enable", "PLG102", "--disable", "#plugcat"], {"PLG102"}),
+             (["--disable", "#plugcat", "--enable-all"], set())]
     for extra, want in cases:
         if log.exists():
             log.unlink()
